@@ -81,7 +81,7 @@ func packGR4JStates(s, r float64, n1, n2 int, q1, q9 []float64) data.ND2Float64 
 	result := data.NewArray2DFloat64(1, 4+n1+n2)
 	//result := make(sim.StateSet, 3+n1+n2)
 	result.Set2(0, 0, s)
-	result.Set2(0, 1, s)
+	result.Set2(0, 1, r)
 	result.Set2(0, 2, float64(n1))
 	result.Set2(0, 3, float64(n2))
 
